@@ -228,7 +228,7 @@ func main() {
 	inf := fs.String("in", "", "input cases file (one/replay)")
 	shard := fs.Int("shard", 0, "shard index")
 	of := fs.Int("of", 1, "number of shards")
-	hang := fs.Int("hang", 25, "seconds after which a library call counts as hanging")
+	hang := fs.Int("hang", 60, "seconds after which a library call counts as hanging")
 	fs.Parse(os.Args[2:])
 	hangLimit = time.Duration(*hang) * time.Second
 	p, ok := props[*prop]
